@@ -682,7 +682,7 @@ def main(tier, seed):
                                        'script': c['script'], 'max_ticks': c['max_ticks']}}
              for c in cases]
     order = sorted(range(len(allc)), key=lambda j: (j % vlib.NPROC, j))
-    res = vlib.run_impl('dbgmapfn.any_case', [allc[j] for j in order])
+    res = vlib.run_impl('dbgmapfn.any_case', [allc[j] for j in order], timeout=4 * 3600)
     allr = [None] * len(allc)
     for j, r in zip(order, res):
         allr[j] = r
